@@ -3,3 +3,4 @@ import GoImap.Props.SourceFacts
 #print axioms GoImap.SourceFactsProps.literal_thresholds
 #print axioms GoImap.SourceFactsProps.every_session_call_guarded
 #print axioms GoImap.SourceFactsProps.session_methods_covered
+#print axioms GoImap.SourceFactsProps.cmd_grammar_limits
